@@ -2232,6 +2232,29 @@ def _note_signatures(trees):
           add(n.name, ps + ([None] if n.args.vararg else []))
   normalize.PACKAGE_SIGNATURES.clear()
   normalize.PACKAGE_SIGNATURES.update(sigs)
+  # constant defaults: name -> parameter -> set of default texts over all definitions of that name ('<none>' when a definition has no constant default)
+  dfl = {}
+  for tree in trees.values():
+    for n in ast.walk(tree):
+      if isinstance(n, FN):
+        ps = n.args.posonlyargs + n.args.args
+        ds = [None] * (len(ps) - len(n.args.defaults)) + list(n.args.defaults)
+        d = dfl.setdefault(n.name, {})
+        seen = set()
+        for a, dv in zip(ps, ds):
+          seen.add(a.arg)
+          d.setdefault(a.arg, set()).add(ast.unparse(dv) if isinstance(dv, ast.Constant) else '<none>')
+        for a, dv in zip(n.args.kwonlyargs, n.args.kw_defaults):
+          seen.add(a.arg)
+          d.setdefault(a.arg, set()).add(ast.unparse(dv) if isinstance(dv, ast.Constant) else '<none>')
+        d.setdefault('<defs>', []).append(seen)
+  for nm, d in dfl.items():
+    defs = d.pop('<defs>')
+    for pn in list(d):
+      if not all(pn in s for s in defs):
+        d[pn] = d[pn] | {'<none>'}
+  normalize.PACKAGE_DEFAULTS.clear()
+  normalize.PACKAGE_DEFAULTS.update(dfl)
 
 
 def _note_stable_attrs(trees):
@@ -2253,6 +2276,17 @@ def _note_stable_attrs(trees):
   normalize.STABLE_ATTRS.clear()
   if '*' not in bound_other:
     normalize.STABLE_ATTRS.update(a for a in bound_init - bound_other if a.startswith('_'))
+    # class-body constants read through self (`Idle = ...` in the class body) that no code anywhere stores through an attribute
+    stored = set(n.attr for tree in trees.values() for n in ast.walk(tree) if isinstance(n, ast.Attribute) and isinstance(n.ctx, (ast.Store, ast.Del)))
+    consts, funcs = set(), set()
+    for tree in trees.values():
+      for c in [x for x in ast.walk(tree) if isinstance(x, ast.ClassDef)]:
+        for m in c.body:
+          if isinstance(m, ast.Assign) and len(m.targets) == 1 and isinstance(m.targets[0], ast.Name):
+            consts.add(m.targets[0].id)
+          elif isinstance(m, FN + (ast.ClassDef,)):
+            funcs.add(m.name)
+    normalize.STABLE_ATTRS.update(consts - stored - funcs)
 
 
 
@@ -3253,6 +3287,10 @@ def restore_package(trees, stats):
       restore_closures(tree, rel, stats)
     except Exception as e:
       stats['closure_error'] = repr(e)
+  try:
+    _note_signatures(trees)       # again: names restored above are the ones the per-function steps look up
+  except Exception as e:
+    stats['signature_error'] = repr(e)
 
 
 def outline_package(trees, stats):
